@@ -323,6 +323,10 @@ func (fr *Frame) dispatchNamed(cx *callCtx) []Term {
 func (fr *Frame) dispatchStatic(cx *callCtx, clo *Closure) []Term {
 	e := fr.eng
 	cx.fillTypes()
+	if cx.callee != nil && cx.callee.Name() == "init" && cx.callee.Pkg != nil && fr.fn.Pkg != nil && cx.callee.Pkg != fr.fn.Pkg {
+		// initializer of an imported package: its variables are arbitrary (initial heap) for this package anyway
+		return cx.zeroResults()
+	}
 	fr.checkSites(cx)
 	// 1. contract
 	if con := e.cs.Fns[cx.name]; con != nil && !con.Inline {
